@@ -34,7 +34,7 @@ n_open = sum(1 for f in kf if f["status"] == "open")
 put("findings", f"{n_fixed} defects repaired by `fix:` commits in /repo, {n_open} recorded as open findings.\n\n" + "\n".join(rows))
 
 rows = ["| seeded change | site | needs, to manifest | caught by (signature) | history |", "|---|---|---|---|---|"]
-for d in sorted(glob.glob(os.path.join(HERE, "seeded", "*"))):
+for d in sorted(x for x in glob.glob(os.path.join(HERE, "seeded", "*")) if os.path.isdir(x)):
     m = json.load(open(os.path.join(d, "meta.json")))
     patch = open(os.path.join(d, "patch.diff")).read()
     files = sorted(set(re.findall(r"^\+\+\+ b/(\S+)", patch, re.M)))
